@@ -2751,9 +2751,7 @@ static Node *unary(Token **rest, Token *tok) {
     add_type(node);
     if (!is_numeric(node->ty))
       error_tok(tok, "invalid operand");
-    if (is_integer(node->ty) && node->ty->size < ty_int->size)
-      return new_cast(node, ty_int);
-    return new_cast(node, node->ty);
+    return new_cast(node, promoted_type(node));
   }
 
   if (equal(tok, "-"))
